@@ -17,6 +17,7 @@ helpers and default-then-override spellings denote the same terms.
 Not decided: whether lsmr converges for a given matrix (numeric).
 """
 import ast
+import re
 import copy
 
 from ..srcmodel import AnalysisError, U, calls_in, walk_shallow, target_names, names_in, kwarg
@@ -473,7 +474,27 @@ def check_features(ctx, fi, block, total):
                 if want_guard is None and len(ev_.pc) == 1 and isinstance(ev_.pc[0][0], ast.Call) and U(ev_.pc[0][0].func).endswith('allclose'):
                     want_guard = with_v(ev_.pc[0][0])
                 continue
-            conds = [(with_v(c), pol) for c, pol in ev_.pc]
+            conds = []
+            for c, pol in ev_.pc:
+                if pol and isinstance(c, ast.BoolOp) and isinstance(c.op, ast.And):
+                    conds.extend((with_v(x), True) for x in c.values)          # every conjunct of a test that held
+                else:
+                    conds.append((with_v(c), pol))
+            # the solver's stop code as an extra condition: `istop != 0` only excludes the case that the solver returned v = 0 (for which the
+            # row-space test fails anyway, 0 != 1); any other stop code also occurs for perfectly solvable systems (with atol = btol = 0 the code for
+            # "least-squares solution" is returned whenever the estimated residual of the normal equations hits exactly 0)
+            kept_ = []
+            for c_, pol_ in conds:
+                tc_ = T(c_)
+                m_ = re.fullmatch(re.escape(call_text) + r'\[1\](!=|==)(\d+)', tc_)
+                if m_ and is_lsmr:
+                    vac = (m_.group(1) == '!=' and m_.group(2) == '0' and pol_) or (m_.group(1) == '==' and m_.group(2) == '0' and not pol_)
+                    ctx.ob('guarded-append', fi, ev_.stmt, vac, 'the solver\'s stop code may only exclude "returned v = 0" (code 0); the source requires `%s`%s' % (
+                        U(c_)[:60], '' if vac else ' - a code that solvable systems produce too: their measurements are dropped although their queries can express the count'),
+                        construct='stop code test in ' + where)
+                    continue
+                kept_.append((c_, pol_))
+            conds = kept_
             good = False
             if len(conds) == 1 and conds[0][1] and isinstance(conds[0][0], ast.Call) and U(conds[0][0].func).split('.')[-1] == 'allclose':
                 good = True
